@@ -1,9 +1,25 @@
 import SoundeventModel.Ops.Common
+import SoundeventModel.Aoef.Closure
 namespace SE.Ops.C02
-open Lean SE
+open Lean SE SE.Aoef SE.Paths
 
-def handle (op : String) (_a : Json) : Except String Json := do
+def kindTable (f : Kind → List String) : Json :=
+  Json.mkObj (Kind.all.map fun k => (k.name, toJson (f k)))
+
+def handle (op : String) (a : Json) : Except String Json := do
   match op with
+  | "closure" =>
+    -- the reference structure of a document (the one the real code wrote)
+    let d : Doc ← fromJson? (← fld a "doc")
+    return Json.mkObj [
+      ("problems", toJson (problems d)),
+      ("closed", boolJ (closed d)), ("unique", boolJ (unique d)),
+      ("parent_first", boolJ (parentFirst d)),
+      ("defs", kindTable (fun k => if k = .tag then tagDefKeys d else defs d k))]
+  | "reach" =>
+    -- keys of the distinct objects reachable from a collection, per kind
+    let c : Collection ← fromJson? (← fld a "collection")
+    return kindTable (fun k => (reachKeys c.trav k).eraseDups)
   | _ => .error s!"C02: unknown op {op}"
 
 end SE.Ops.C02
